@@ -1,6 +1,6 @@
 (* C13 — modes are independent: expand_mode replicates, connect_all pairs like modes. *)
 From Coq Require Import List Arith Bool String.
-From Lekkersim Require Import Field Matrix Base Network Names Modes ModesProofs.
+From Lekkersim Require Import Field Matrix Base Network Names Modes ModesProofs ModesCircuit.
 Import ListNotations.
 
 Section Expand.
@@ -27,6 +27,16 @@ Theorem C13_expand_independent id np N (S : mx K) (a b : waves K) :
   forall i, (i < np)%nat ->
     Sem (lst_of_comp (base_comp K id N S)) (mode_view K N i a) (mode_view K N i b).
 Proof. exact (expand_Sem K KL id np N S a b). Qed.
+(* a whole circuit of expanded blocks, every link replicated per mode (what connect_all does for equal mode
+   lists): its waves solve the network equations exactly when, for every mode, the waves seen on that mode solve the
+   single-mode circuit — independent copies.  Any components (distinct ids), any links and exposures on valid pins. *)
+Theorem C13_expanded_circuit_independent np (cs : list (comp K)) links ex (u a b : waves K) :
+  NoDup (map (@c_id K) cs) ->
+  (forall c, In c links -> valid K cs (fst c) /\ valid K cs (snd c)) ->
+  (forall x, In x ex -> valid K cs x) ->
+  (wave_solution (exp_net K np cs links ex) u a b <->
+   forall i, (i < np)%nat -> wave_solution (base_net K cs links ex) (view K cs i u) (view K cs i a) (view K cs i b)).
+Proof. intros H1 H2 H3. exact (expanded_circuit_independent K KL np cs links ex H1 H2 H3 u a b). Qed.
 End Expand.
 
 (* connect_all links exactly the common modes, each with its like-named partner *)
@@ -49,6 +59,7 @@ Print Assumptions C13_expand_coeff.
 Print Assumptions C13_expand_idx_inj.
 Print Assumptions C13_expand_idx_bound.
 Print Assumptions C13_expand_independent.
+Print Assumptions C13_expanded_circuit_independent.
 Print Assumptions C13_connect_all_pairs.
 Print Assumptions C13_queries_basenames.
 Print Assumptions C13_queries_modes.
